@@ -90,14 +90,14 @@ def runlit(m):
     return ('{| r_ver := %s; r_kx := %d; r_req_cert := %s; r_psk := %s; r_cert := %s; r_cv := %s; r_ske := %s; '
             'r_cr := %s; r_sr := %s; r_premaster := %s; r_tr_cv := %s; r_tr_fin := %s; r_tr_binder := %s; r_prf := %s; '
             'r_offered := [%s]; r_valid := [%s]; r_dc_offered := [%s]; r_kx_alert := %s; r_rec_ok := %s; r_fin := %s; '
-            'r_binder := %s; r_ticket_chain := %s; r_srp_user := %s; r_srp_known := %s; r_own_chain := %s; '
+            'r_binder := %s; r_ticket_chain := %s; r_ticket_srp := %s; r_srp_user := %s; r_srp_known := %s; r_own_chain := %s; '
             'r_srv_scheme := %s; r_ctx_ok := %s; r_cert_required := %s |}'
             % (sch(m['ver']), m['kx'], boollit(m['req_cert']), oz(m['psk']), certlit(m['cert']), cv, ske,
                blit(m['cr']), blit(m['sr']), blit(m['premaster']), blit(m['tr_cv']), blit(m['tr_fin']),
                blit(m['tr_binder']), ostr(m['prf']),
                ';'.join(sch(s) for s in m['offered']), ';'.join(sch(s) for s in m['valid']),
                ';'.join(sch(s) for s in m['dc_offered']), oz(m['kx_alert']), boollit(m['rec_ok']), blit(m['fin']),
-               blit(m['binder']), olist(m['ticket_chain']), olist(m['srp_user']), boollit(m['srp_known']),
+               blit(m['binder']), olist(m['ticket_chain']), olist(m.get('ticket_srp')), olist(m['srp_user']), boollit(m['srp_known']),
                olist(m['own_chain']), ostr(m['srv_scheme']), boollit(m['ctx_ok']), boollit(m['cert_required'])))
 
 
